@@ -42,6 +42,7 @@ type lsmState struct {
 	normal  bool   // normal (oracle-assigned timestamps) mode
 	snaps   []*Txn // open snapshot transactions (normal mode)
 	held    []heldItem
+	dropped []string
 }
 
 type heldItem struct {
@@ -103,7 +104,7 @@ func lsmOpts(x *seqExec) Options {
 	o.NumMemtables = 4
 	o.NumVersionsToKeep = x.j.Int("nvk", 1)
 	o.BlockSize = 128
-	o.ValueThreshold = 64
+	o.ValueThreshold = int64(x.j.Int("value_threshold", 64))
 	o.LmaxCompaction = true
 	if x.j.Bool("inmemory", false) {
 		o.InMemory, o.Dir, o.ValueDir = true, "", ""
@@ -118,6 +119,9 @@ func lsmOpen(x *seqExec) {
 	st.normal = !st.opts.managedTxns
 	nk := x.j.Int("keys", 2)
 	st.keys = []string{"a", "b", "c", "d"}[:nk]
+	if x.j.Str("keyset", "") == "drop" {
+		st.keys = []string{"p1a", "p1b", "p2a", "q"}[:nk]
+	}
 	x.st = st
 	x.db = mustOpen(st.opts)
 }
@@ -320,6 +324,10 @@ func lsmEnabled(x *seqExec) []string {
 	if x.j.Bool("closecompact", false) {
 		ops = append(ops, "CX")
 	}
+	if x.j.Bool("drops", false) && len(st.snaps) == 0 && len(st.held) == 0 {
+		// Y<prefix,...> = DropPrefix, V = DropAll (documented: not while reads are in progress)
+		ops = append(ops, "Yp1", "Yp", "Yp1,q", "Yp1,p2", "Yp1a,p1", "Yzz", "V")
+	}
 	if only := x.j.Str("ops", ""); only != "" {
 		allow := map[string]bool{}
 		for _, o := range strings.Fields(only) {
@@ -505,6 +513,41 @@ func lsmApply(x *seqExec, op string) bool {
 		case "CX":
 			return db.lc.doCompact(173, compactionPriority{level: 0, score: 1.73}) == nil
 		}
+	case 'Y', 'V':
+		var prefixes [][]byte
+		match := func(k string) bool { return true }
+		if op[0] == 'Y' {
+			ps := strings.Split(op[1:], ",")
+			for _, p := range ps {
+				prefixes = append(prefixes, []byte(p))
+			}
+			match = func(k string) bool {
+				for _, p := range ps {
+					if strings.HasPrefix(k, p) {
+						return true
+					}
+				}
+				return false
+			}
+			if err := db.DropPrefix(prefixes...); err != nil {
+				panic(fmt.Sprintf("DropPrefix(%s): %v", op[1:], err))
+			}
+		} else if err := db.DropAll(); err != nil {
+			panic(fmt.Sprintf("DropAll: %v", err))
+		}
+		synctest.Wait()
+		kept := st.writes[:0]
+		removed := false
+		for _, w := range st.writes {
+			if match(w.Key) {
+				removed = true
+				continue
+			}
+			kept = append(kept, w)
+		}
+		st.writes = kept
+		st.dropped = append(st.dropped, op)
+		return removed
 	case 'T':
 		m := st.maxTs()
 		if m <= st.discard {
@@ -1157,6 +1200,14 @@ func lsmCheck(x *seqExec, op string) (string, string) {
 		}
 	}
 	switch st.oracle {
+	case "c29": // reads equal the model (dropped keys invisible, everything else unchanged) and the tree is well formed
+		if c, d := lsmCheckReads(x); c != "" {
+			if len(st.dropped) > 0 {
+				c = "drop-" + c
+			}
+			return c, d
+		}
+		return lsmCheckStructure(x)
 	case "c12", "c36", "c07":
 		return lsmCheckReads(x)
 	case "c13":
